@@ -145,10 +145,12 @@ impl GraphEngine {
                 };
 
                 // Find common neighbors (complete the triangle)
-                // Require w > v to ensure each triangle is counted exactly once
+                // Require w to come after v in the same (degree, id) order that picked u before v,
+                // so each triangle is counted exactly once (at its two lowest-ranked nodes)
                 for &w in u_neighbors {
-                    if w > v && v_neighbors.contains(&w) {
-                        // Found triangle (u, v, w) where u < v < w
+                    let w_deg = degrees.get(&w).copied().unwrap_or(0);
+                    if (w_deg, w) > (v_deg, v) && v_neighbors.contains(&w) {
+                        // Found triangle (u, v, w) where u < v < w in (degree, id) order
                         triangle_count += 1;
                         *node_triangles.entry(u).or_insert(0) += 1;
                         *node_triangles.entry(v).or_insert(0) += 1;
@@ -453,5 +455,28 @@ mod tests {
 
         // Complete graph K3 has average clustering 1.0
         assert!((avg - 1.0).abs() < f64::EPSILON);
+    }
+    #[test]
+    fn test_triangle_with_pendant_on_lowest_id_counted_once() {
+        // Triangle a-b-c plus a pendant on `a`: `a` has the highest degree but the lowest id.
+        let engine = GraphEngine::new();
+        let a = engine.create_node("A", HashMap::new()).unwrap();
+        let b = engine.create_node("B", HashMap::new()).unwrap();
+        let c = engine.create_node("C", HashMap::new()).unwrap();
+        let d = engine.create_node("D", HashMap::new()).unwrap();
+        for (x, y) in [(a, b), (b, c), (a, c), (a, d)] {
+            engine
+                .create_edge(x, y, "EDGE", HashMap::new(), false)
+                .unwrap();
+        }
+
+        let result = engine
+            .count_triangles(&TriangleConfig::new().undirected())
+            .unwrap();
+        assert_eq!(result.triangle_count, 1);
+        assert_eq!(result.node_triangles[&a], 1);
+        assert_eq!(result.node_triangles[&b], 1);
+        assert_eq!(result.node_triangles[&c], 1);
+        assert_eq!(result.node_triangles[&d], 0);
     }
 }
